@@ -118,6 +118,11 @@ def norm_index(it, i, n_term):
 
 def clamp_slice(lo, hi, n):
     """(start, length) of s[lo:hi] for a sequence of length n (z3 terms / None)."""
+    if (lo is None or (isinstance(lo, int) and lo >= 0)) and isinstance(hi, int) and hi >= 0 \
+            and not isinstance(lo, bool) and not isinstance(hi, bool):
+        # z3's substr already clamps at the end of the string: s[a:b] == substr(s, a, b - a) for 0 <= a, b
+        a = lo or 0
+        return z3.IntVal(a), z3.IntVal(max(0, hi - a))
     def norm(x, dflt):
         if x is None:
             return dflt
@@ -238,9 +243,17 @@ def getslice(it, base, lo, hi, step, line=None):
     if isinstance(base, SAny):
         t = base.t
         if it.spec():
-            s = PV.s(t)
-            a, ln = clamp_slice(lo, hi, z3.Length(s))
-            return SStr(z3.SubString(s, a, ln))
+            def sub(x):
+                a, ln = clamp_slice(lo, hi, z3.Length(x))
+                return z3.SubString(x, a, ln)
+
+            def subseq(x):
+                a, ln = clamp_slice(lo, hi, z3.Length(x))
+                return z3.SubSeq(x, a, ln)
+            return lower(z3.If(PV.is_PStr(t), PV.PStr(sub(PV.s(t))),
+                         z3.If(PV.is_PBytes(t), PV.PBytes(sub(PV.by(t))),
+                         z3.If(PV.is_PTuple(t), PV.PTuple(subseq(PV.titems(t))),
+                               PV.PList(subseq(PV.litems(t)))))))
         if it.ctx.branch(PV.is_PStr(t), 'isstr@%s' % line):
             return getslice(it, SStr(PV.s(t)), lo, hi, step, line)
         if it.ctx.branch(PV.is_PTuple(t), 'istuple@%s' % line):
